@@ -13,7 +13,27 @@ var (
 	zzTagRE    = regexp.MustCompile(`^[A-Za-z0-9_][A-Za-z0-9._-]{0,127}$`)
 	zzDigestRE = regexp.MustCompile(`^[A-Za-z][A-Za-z0-9]*(?:[-_+.][A-Za-z][A-Za-z0-9]*)*:[0-9a-fA-F]{32,}$`)
 	zzHostRE   = regexp.MustCompile(`^[A-Za-z0-9.:-]+$`)
+	// a domain as Docker and the distribution spec define it: dot separated labels of letters, digits and inner dashes, optional port
+	zzDomainRE = regexp.MustCompile(`^[a-zA-Z0-9](?:[a-zA-Z0-9-]*[a-zA-Z0-9])?(?:\.[a-zA-Z0-9](?:[a-zA-Z0-9-]*[a-zA-Z0-9])?)*(?::[0-9]+)?$`)
 )
+
+// zzDomainOf: the first component of s when, by Docker's rule, it is the
+// registry domain (it contains a dot or a colon, or is "localhost") and it is
+// a well-formed domain; "" otherwise.
+func zzDomainOf(s string) string {
+	i := strings.Index(s, "/")
+	if i <= 0 {
+		return ""
+	}
+	first := s[:i]
+	if !strings.Contains(first, ".") && !strings.Contains(first, ":") && first != "localhost" {
+		return ""
+	}
+	if !zzDomainRE.MatchString(first) {
+		return ""
+	}
+	return first
+}
 
 func zzSameRef(a, b Ref) bool {
 	return a.Scheme == b.Scheme && a.Registry == b.Registry && a.Repository == b.Repository && a.Tag == b.Tag && a.Digest == b.Digest && a.Path == b.Path
@@ -51,6 +71,11 @@ func zzCheck(s string) {
 			zzAssert(strings.Contains(r.Repository, "/"), "docker_hub_repository_has_namespace")
 		}
 		zzAssert(r.Registry != "index.docker.io" && r.Registry != "registry-1.docker.io", "legacy_hub_names_folded")
+		// a well-formed domain in front is the registry, never folded into the repository
+		if dom := zzDomainOf(s); dom != "" && dom != "docker.io" && dom != "index.docker.io" && dom != "registry-1.docker.io" {
+			zzReach("domain_in_front")
+			zzAssert(r.Registry == dom, "well_formed_domain_is_the_registry")
+		}
 		if !strings.Contains(s, ":") && !strings.Contains(s, "@") {
 			zzAssert(r.Tag == "latest", "default_tag_is_latest")
 		}
@@ -118,4 +143,27 @@ func ZZC15_hosts() {
 	h := hosts[zzInt("host", 0, len(hosts)-1)]
 	n := zzInt("len", 0, 4+2*zzTier())
 	zzCheck(h + zzString("s", n))
+}
+
+// Domains: a registry domain of two labels with symbolic characters (letters,
+// digits, dashes - consecutive ones included) and an optional port, in front
+// of a fixed repository and tag: the reference is in the grammar, so it is
+// accepted, with exactly that domain as its registry.
+func ZZC15_domains() {
+	l1 := zzStringOf("label1", zzInt("len1", 1, 4+zzTier()), "a-z0-9-")
+	l2 := zzStringOf("label2", zzInt("len2", 1, 2), "a-z0-9-")
+	dom := l1 + "." + l2
+	if zzBool("port") {
+		dom += ":5000"
+	}
+	zzAssume(zzDomainRE.MatchString(dom))
+	s := dom + "/team/image:v1"
+	r, err := New(s)
+	zzReach("domain_reference_tried")
+	zzAssert(err == nil, "reference_in_the_grammar_is_accepted")
+	if err != nil {
+		return
+	}
+	zzAssert(r.Registry == dom && r.Repository == "team/image" && r.Tag == "v1", "well_formed_domain_is_the_registry")
+	zzCheck(s)
 }
